@@ -24,4 +24,4 @@ run_one() {
   rm -rf $R $V
 }
 export -f run_one
-ls -d /verif/seeded/*${pat}* | xargs -P 3 -I{} bash -c "run_one {} '$extra'"
+ls -d /verif/seeded/*${pat}* | xargs -P ${PAR:-3} -I{} bash -c "run_one {} '$extra'"
